@@ -42,9 +42,9 @@ Refuse(s) == /\ pc = "build" /\ Len(ms) >= 2
              /\ pc' = "undefined"
              /\ UNCHANGED <<ms, cnt, out>>
 
-Next == \/ \E m \in ModelSet : AddModel(m)
-        \/ /\ Len(ms) >= 2
-           /\ \E s \in Selections(Concat(ms), NMin(ms)) : Compare(s) \/ Refuse(s)
+CompareAny == Len(ms) >= 2 /\ \E s \in Selections(Concat(ms), NMin(ms)) : Compare(s)
+RefuseAny == Len(ms) >= 2 /\ \E s \in Selections(Concat(ms), NMin(ms)) : Refuse(s)
+Next == (\E m \in ModelSet : AddModel(m)) \/ CompareAny \/ RefuseAny
 Spec == Init /\ [][Next]_vars
 
 \* ---- the property (C17, model comparison part) ------------------------------------------------
@@ -58,7 +58,7 @@ SharesOfSmallest == Done => cnt \in DefCounts(ms)
 AllSharesReachable == (pc = "build" /\ Len(ms) >= 2) => MechCounts(ms) = DefCounts(ms)
 \* the index sets of Compare are the prefixes of the sorting permutations (short concatenations)
 SelectionsArePrefixes ==
-  (pc = "build" /\ Len(ms) >= 2 /\ Len(Concat(ms)) <= 5) =>
+  (pc = "build" /\ Len(ms) >= 2 /\ Len(Concat(ms)) <= 4) =>
      Selections(Concat(ms), NMin(ms)) = PrefixSets(Concat(ms), NMin(ms))
 \* probabilities sum to one
 SumOne == Done => /\ \A i \in 1..M : out[i][2] > 0 /\ out[i][1] >= 0
